@@ -14,6 +14,7 @@ import Sgz.Model.Irregular
 import Sgz.Model.Export
 import Sgz.Model.Window
 import Sgz.Model.Container
+import Sgz.Model.Header
 /-!
 Line-protocol driver over the executable model (`Sgz/Model`, Mathlib-free).  One request per line, one answer per
 line.  The Python harness sends the same request to the real implementation and diffs canonical answers.
@@ -404,6 +405,31 @@ def handleContainer (ws : List String) : String :=
     | none => "bad-op"
   | _, _ => "bad-op"
 
+def fieldsLine (f : Header.Fields) : String :=
+  s!"{f.nHeaderBlocks} {f.nSamples} {f.nXl} {f.nIl} {f.zStart} {f.xl0} {f.il0} {f.interval} {f.dXl} {f.dIl} {f.q} {f.b0} {f.b1} {f.b2} {f.dataBlocks} {f.arrayBytes} {f.nArrays} {f.tracecount} {f.version}"
+
+/-- `header make <19 fields>` → the first 76 header bytes (decimal, space separated) or `err`;
+`header parse <76 bytes>` → the 19 fields -/
+def handleHeader (ws : List String) : String :=
+  match ws with
+  | "make" :: rest =>
+    match ints rest with
+    | some [a, b, c, d, e, f, g, h, i, j, k, l, m, n, o, p, q, r, s] =>
+      let fl : Header.Fields :=
+        { nHeaderBlocks := a.toNat, nSamples := b.toNat, nXl := c.toNat, nIl := d.toNat, zStart := e,
+          xl0 := f, il0 := g, interval := h, dXl := i, dIl := j, q := k.toNat, b0 := l.toNat, b1 := m.toNat,
+          b2 := n.toNat, dataBlocks := o.toNat, arrayBytes := p.toNat, nArrays := q.toNat, tracecount := r.toNat,
+          version := s.toNat }
+      match Header.make fl with
+      | some hb => joinNat ((List.range 76).map hb)
+      | none => "err"
+    | _ => "bad-op"
+  | "parse" :: rest =>
+    match rest.mapM String.toNat? with
+    | some bs => if bs.length != 76 then "bad-op" else fieldsLine (Header.parse fun i => bs.getD i 0)
+    | none => "bad-op"
+  | _ => "bad-op"
+
 def handle (line : String) : String :=
   if line.startsWith "hist " then handleHist (line.drop 5).toString else
   if line.startsWith "hwtable " then handleHwTable (line.drop 8).toString else
@@ -422,6 +448,7 @@ def handle (line : String) : String :=
   | "export" :: rest => handleExport rest
   | "window" :: rest => handleWindow rest
   | "container" :: rest => handleContainer rest
+  | "header" :: rest => handleHeader rest
   | "hashfeed" :: rest => handleHashFeed rest
   | ["ping"] => "pong"
   | _ => "bad-op"
